@@ -9,7 +9,7 @@ class HasPi (α : Type) where pi : α
 instance : HasPi Float := ⟨3.141592653589793⟩
 
 section
-variable {α : Type} [Zero α] [Add α] [Sub α] [Mul α] [Div α] [NatCast α] [HasSqrt α] [HasLog α] [HasPi α]
+variable {α : Type} [Zero α] [Add α] [Sub α] [Mul α] [Div α] [NatCast α] [IntCast α] [HasSqrt α] [HasLog α] [HasPi α]
 
 /-- onion-peeling weight matrix `W[i,j]` (Dasch Eq. (11)); zero below the diagonal -/
 def onionW (i j : Nat) : α :=
@@ -40,6 +40,65 @@ def daun0 (j i : Nat) : α :=
     if i = j then ((2 : Nat) : α) * a
     else ((2 : Nat) : α) * (a - sqrt (((2 * j - 1 : Nat) : α) / ((2 : Nat) : α) * (((2 * j - 1 : Nat) : α) / ((2 : Nat) : α))
                        - ((i ^ 2 : Nat) : α)))
+
+/-! three-point operator (Dasch Eqs. (5)–(7)), as coded in `_bs_three_point` -/
+
+/-- `I0(i, j)` for j > i, `I0diag` for j = i -/
+def tp3I0 (i j : Nat) : α :=
+  let top : α := sqrt ((((2 * j + 1) ^ 2 : Nat) : α) - ((4 * i ^ 2 : Nat) : α)) + ((2 * j + 1 : Nat) : α)
+  if i = j then log (top / ((2 * j : Nat) : α)) / (((2 : Nat) : α) * HasPi.pi)
+  else log (top / (sqrt ((((2 * j - 1) ^ 2 : Nat) : α) - ((4 * i ^ 2 : Nat) : α)) + ((2 * j - 1 : Nat) : α)))
+         / (((2 : Nat) : α) * HasPi.pi)
+
+def tp3I1 (i j : Nat) : α :=
+  let s1 : α := sqrt ((((2 * j + 1) ^ 2 : Nat) : α) - ((4 * i ^ 2 : Nat) : α))
+  if i = j then s1 / (((2 : Nat) : α) * HasPi.pi) - ((2 * j : Nat) : α) * tp3I0 i j
+  else (s1 - sqrt ((((2 * j - 1) ^ 2 : Nat) : α) - ((4 * i ^ 2 : Nat) : α))) / (((2 : Nat) : α) * HasPi.pi)
+         - ((2 * j : Nat) : α) * tp3I0 i j
+
+def threePointD (i j : Nat) : α :=
+  let one_pi : α := ((1 : Nat) : α) / HasPi.pi
+  if i = 0 ∧ j = 0 then tp3I0 0 1 - tp3I1 0 1 + one_pi
+  else if i = 0 ∧ j = 1 then tp3I0 0 2 - tp3I1 0 2 + ((2 : Nat) : α) * tp3I1 0 1 - one_pi
+  else if j + 1 < i then 0
+  else if j + 1 = i then tp3I0 i (j + 1) - tp3I1 i (j + 1)                         -- j = i − 1 (diag forms, since j+1 = i)
+  else if j = i then tp3I0 i (j + 1) - tp3I1 i (j + 1) + ((2 : Nat) : α) * tp3I1 i j
+  else tp3I0 i (j + 1) - tp3I1 i (j + 1) + ((2 : Nat) : α) * tp3I1 i j - tp3I0 i (j - 1) - tp3I1 i (j - 1)
+
+/-! Daun projected basis sets of degree 1 and 2 (`_bs_daun`), entry `A[j, i]` -/
+
+/-- `x² ln x` with the value 0 at x = 0 -/
+def x2logx (i : Nat) : α := if i = 0 then 0 else ((i ^ 2 : Nat) : α) * log ((i : Nat) : α)
+
+/-- degree 1: `P(R)[i] = y R − x² ln(y + R)`, `y = √(R² − x²)`, for `i < R` -/
+def daun1P (R i : Nat) : α :=
+  let y : α := sqrt (((R ^ 2 : Nat) : α) - ((i ^ 2 : Nat) : α))
+  y * ((R : Nat) : α) - ((i ^ 2 : Nat) : α) * log (y + ((R : Nat) : α))
+
+def daun1 (j i : Nat) : α :=
+  (if i ≤ j then daun1P (j + 1) i else 0)
+  - (if i < j then ((2 : Nat) : α) * daun1P j i else 0)
+  + (if i = j then x2logx j else 0)
+  + (if 0 < j ∧ i + 1 < j then daun1P (j - 1) i else 0)
+  - (if 0 < j ∧ i + 1 = j then x2logx (j - 1) else 0)
+
+/-- degree 2: `P(R, a, b, c)[i]` with `R = R2/2` (half-integers allowed), for `i < R + ½` -/
+def daun2P (R2 : Nat) (a b c : Int) (i : Nat) : α :=
+  let R : α := ((R2 : Nat) : α) / ((2 : Nat) : α)
+  let x2 : α := ((i ^ 2 : Nat) : α)
+  let y : α := sqrt (R * R - x2)
+  let ca : α := ((a : Int) : α); let cb : α := ((b : Int) : α); let cc : α := ((c : Int) : α)
+  y * (ca * ((2 : Nat) : α) + cb * R + cc * ((4 : Nat) : α) / ((3 : Nat) : α) * (R * R / ((2 : Nat) : α) + x2))
+    + cb * x2 * log (y + R)
+
+def daun2 [IntCast α] (j i : Nat) : α :=
+  let J : Int := j
+  (if i ≤ j then daun2P (2 * (j + 1)) (2 * (J + 1) ^ 2) (-4 * (J + 1)) 2 i
+                 - daun2P (2 * j + 1) ((2 * J + 1) ^ 2) (-4 * (2 * J + 1)) 4 i else 0)
+  + (if 0 < j ∧ i < j then daun2P (2 * j - 1) ((2 * J - 1) ^ 2) (-4 * (2 * J - 1)) 4 i else 0)
+  - (if 0 < j ∧ i = j then ((4 * j : Nat) : α) * x2logx j else 0)
+  - (if 0 < j ∧ i + 1 < j then daun2P (2 * (j - 1)) (2 * (J - 1) ^ 2) (-4 * (J - 1)) 2 i else 0)
+  + (if 0 < j ∧ i + 1 = j then ((4 * (j - 1) : Nat) : α) * x2logx (j - 1) else 0)
 
 end
 end PyAbel
